@@ -14,12 +14,13 @@ RULE = ("seeded re-entrancy schedules: 2-8 recording systems, 1-4 actor scripts 
         "effective mutation executed from inside a timestep while >=1 eligible system of the step's initial "
         "queue was still behind the actor; distinct = distinct abstract schedule shape (queue length, actor "
         "position, action kind, relative target position / priority relation per effective mutation)"
-        "; also: falsy systems (__len__ == 0 / __bool__ false), removal through the target's own clean_up(), a registered system re-prioritised in mid-step (attribute assigned, removed, the same object re-added), instance identity (id#generation), hot swap of an id, nested stepping of another model from inside a system, systems with value-based __eq__")
+        "; also: falsy systems (__len__ == 0 / __bool__ false), removal through the target's own clean_up(), systems that are bundled Collector / FileCollector objects, a system switched off-on-off within one turn, a registered system re-prioritised in mid-step (attribute assigned, removed, the same object re-added), instance identity (id#generation), hot swap of an id, nested stepping of another model from inside a system, systems with value-based __eq__")
 COMPONENTS = {"real": ["ECAgent.Core.SystemManager (add_system, remove_system, execute_systems)", "ECAgent.Core.Model",
                        "ECAgent.Core.System.clean_up"],
               "stub": ["System.execute bodies are harness recording systems driven by the scenario script"]}
 PROBES = ["actor_first", "actor_middle", "actor_last", "target_before", "target_self", "target_after",
-          "new_higher", "new_equal", "new_lower", "two_mutations_one_step", "hot_swap_same_id", "other_model_stepped_mid_timestep", "systems_with_value_equality", "falsy_systems", "removed_via_targets_clean_up", "reprioritised_same_object"]
+          "new_higher", "new_equal", "new_lower", "two_mutations_one_step", "hot_swap_same_id", "other_model_stepped_mid_timestep", "systems_with_value_equality", "falsy_systems", "removed_via_targets_clean_up", "reprioritised_same_object", "systems_returning_values_from_execute", "switched_off_on_off_in_one_turn",
+          "systems_that_are_bundled_collectors"]
 SHRINK_LISTS = ["scripts", "systems"]
 SHRINK_SKIP = ("end",)
 
@@ -69,6 +70,9 @@ def generate(rng, tier):
                 prio_of[tgt] = spec["prio"]
             else:
                 actions.append({"op": "remove", "target": f"ghost{rng.randint(0, 3)}"})
+        if rng.random() < 0.08:
+            # switch a system off, on and off again within one turn: clean_up(), register the same object, clean_up()
+            actions.append({"op": "off_on_off", "target": rng.choice(known)})
         if rng.random() < 0.08:
             # re-prioritise a registered system the natural way: assign the attribute, take it out, put the SAME object back
             tgt = rng.choice(known)
@@ -193,6 +197,29 @@ class World:
             rel = "self" if tgt == rec.id else ("new" if tpos is None else ("before" if tpos < apos else "after"))
             self._effective(apos, behind, "replace", rel)
             ctx.probe("hot_swap_same_id")
+        elif op == "off_on_off":
+            tgt = act["target"]
+            if not ref.has(tgt):
+                return
+            o = self.objs[tgt]
+            for phase in ("off", "on", "off"):
+                st, v = ctx.call(sm.add_system, o) if phase == "on" else ctx.call(o.clean_up)
+                if st != "ok":
+                    ctx.fail(f"midstep-{phase}:unexpected-exception", f"{type(v).__name__}: {v}")
+                if phase == "on":
+                    ref.add(self.spec_of[o.uid])
+                    self.uid_of[tgt] = o.uid
+                    self.log.append(("a", tgt, o.uid))
+                    self.readded.add(o.uid)
+                else:
+                    ref.remove(tgt)
+                    self.uid_of.pop(tgt, None)
+                    self.log.append(("r", tgt, o.uid))
+            ctx.event("off_on_off", tgt)
+            tpos = self._pos(tgt)
+            rel = "self" if tgt == rec.id else ("new" if tpos is None else ("before" if tpos < apos else "after"))
+            self._effective(apos, behind, "remove", rel)
+            ctx.probe("switched_off_on_off_in_one_turn")
         elif op == "reprio":
             tgt = act["target"]
             if not ref.has(tgt):
